@@ -359,3 +359,52 @@ Example C08_ex_sts :
   compute ex8_sts false = Ok InProgress [("Reconciling", "True")].
 Proof. repeat split; reflexivity. Qed.
 Print Assumptions C08_dispatch_from_source.
+
+(* ==== At the status readers ===================================================
+   statusreaders.NewDefaultStatusReader (Model/KStatusReader.v) reports Current
+   only when status.Compute reports Current for the object itself: no reader
+   turns another answer into Current (the only rewriting is InProgress ->
+   Failed on a failed pod, see C07_reader_generic_precedence).  Hence every
+   "Current implies ..." theorem above carries over to what the poller and the
+   watcher see; three instances are spelled out. *)
+From CliUtils Require Import Model.KStatusReader Proofs.KStatusReaderProofs.
+
+Theorem C08_reader_current : forall (j : jv) (w sel : bool) (lst : lerr) (kids : list node) (r : rres),
+  read_top (Node j w sel lst kids) = Some r -> rr_status r = Current -> compute j w = Ok Current [].
+Proof. exact reader_current. Qed.
+
+Theorem C08_reader_deploy_no_lag : forall (j : jv) (w sel : bool) (lst : lerr) (kids : list node) (r : rres),
+  is_kind j LDeployment ->
+  read_top (Node j w sel lst kids) = Some r -> rr_status r = Current ->
+  let f := deploy_fields j in
+  (d_status f >= d_spec f /\ d_updated f >= d_spec f /\ d_ready f >= d_spec f /\ d_available f >= d_spec f)%Z.
+Proof. exact reader_deploy_no_lag. Qed.
+
+Theorem C08_reader_sts_no_lag : forall (j : jv) (w sel : bool) (lst : lerr) (kids : list node) (r : rres),
+  is_kind j LSts ->
+  read_top (Node j w sel lst kids) = Some r -> rr_status r = Current ->
+  let f := sts_fields j in
+  s_strategy f = "OnDelete" \/
+  ((s_status f >= s_spec f /\ s_ready f >= s_spec f)%Z /\
+   (s_partition f = (-1)%Z -> (s_current f >= s_spec f)%Z /\ s_cur_rev f = s_upd_rev f) /\
+   (s_partition f <> (-1)%Z -> (s_updated f >= sub64 (s_spec f) (s_partition f))%Z)).
+Proof. exact reader_sts_no_lag. Qed.
+
+(* ReplicaSet: the partial form only (known finding above) *)
+Theorem C08_reader_rs_no_lag_partial : forall (j : jv) (w sel : bool) (lst : lerr) (kids : list node) (r : rres),
+  is_kind j LReplicaSet ->
+  read_top (Node j w sel lst kids) = Some r -> rr_status r = Current ->
+  let f := rs_fields j in
+  (r_labelled f >= r_spec f /\ r_available f >= r_spec f /\ r_ready f >= r_spec f /\ r_status f <= r_spec f)%Z.
+Proof. exact reader_rs_no_lag_partial. Qed.
+
+Print Assumptions C08_reader_current.
+Print Assumptions C08_reader_deploy_no_lag.
+Print Assumptions C08_reader_sts_no_lag.
+Print Assumptions C08_reader_rs_no_lag_partial.
+
+(* non-vacuity: the rolled-out Deployment above, read through the Deployment
+   reader with no ReplicaSets listed, is Current *)
+Example C08_ex_reader_deploy :
+  exists r, read_top (Node ex8_deploy false true LOk []) = Some r /\ rr_status r = Current /\ rr_error r = false.
+Proof. eexists. split; [vm_compute; reflexivity|]. split; reflexivity. Qed.
